@@ -39,7 +39,7 @@ DIFF = [  # (criteria, brute-force key, how to read the LP result)
 
 
 def budget(tier):
-    return 4000 if tier == 'quick' else 100000
+    return 9000 if tier == 'quick' else 150000
 
 
 @st.composite
@@ -47,14 +47,36 @@ def _cases(draw, tier):
     diff = pct(draw) < 12
     pc = pct(draw) < 35
     shape = draw(st.sampled_from(['mix', 'contention', 'contention', 'few_students_long_lists',
-                                  'only_empty', 'many_projects']))
+                                  'few_students_long_lists', 'few_students_long_lists',
+                                  'only_empty', 'many_projects', 'tied_exact']))
     sizes = dict(SIZES[tier])
     if shape == 'few_students_long_lists':
-        sizes['n1'] = 2
+        # ranks up to 7 with two or three students: (1,5) vs (3,4), (1,1,4) vs (2,2,3) ...
+        sizes = dict(n1=3, n2=7, n2min=4, n3=3, lmax=7)
     if shape == 'many_projects':
         # two-digit project / lecturer ids: (n2+1)^n1 <= 14^3
         sizes = dict(n1=3, n2=13, n2min=10, n3=12, lmax=4)
-    inst = draw(strategies.instances(sizes, min_len=2 if shape == 'contention' else 1))
+    kwi = {}
+    if shape == 'few_students_long_lists':
+        kwi = dict(cls=draw(st.sampled_from(['zero_capacity', 'zero_capacity', 'generic'])),
+                   min_len=5)
+    if shape == 'tied_exact':
+        kwi = dict(cls='heavy_ties', two_sided=True)
+    inst = draw(strategies.instances(sizes, min_len=2 if shape == 'contention' else 1)
+                if not kwi else strategies.instances(sizes, **kwi))
+    if shape == 'tied_exact':
+        # capacities that are exactly filled when everybody gets a first choice
+        cap = [0] * inst['n2']
+        for pl in inst['prefs']:
+            cap[pl[0][0] - 1] += 1
+        inst['puq'] = cap
+        inst['plq'] = [0] * inst['n2']
+        if inst['na'] == 2:
+            inst['luq'], inst['lt'], inst['llq'] = list(cap), list(cap), [0] * inst['n2']
+        else:
+            tot = [sum(cap[j] for j in range(inst['n2']) if inst['plec'][j] == k + 1)
+                   for k in range(inst['n3'])]
+            inst['luq'], inst['lt'], inst['llq'] = list(tot), list(tot), [0] * inst['n3']
     if shape == 'contention':
         # capacity-one projects fought over by several students with strict lists: maximum
         # size, greedy and generous optima pull in different directions
@@ -76,6 +98,48 @@ def _cases(draw, tier):
             inst['llq'] = [0] * inst['n2']
     twopl = inst['lprefs'] is not None and pct(draw) < 80
     return {'inst': inst, 'pc': pc, 'twopl': twopl, 'diff': diff}
+
+
+def exhaustive(tier):
+    """Two students, each with exactly two usable projects at ranks a<b resp. c<d in 1..R
+    (all other listed projects have capacity 0), every way the usable projects may coincide,
+    and three id layouts (enumeration orders): all rank/cost/squared-cost trade-offs between
+    two maximum-size matchings."""
+    import itertools
+    R = 6 if tier == 'quick' else 7
+    pairs = list(itertools.combinations(range(1, R + 1), 2))
+    for (a, b) in pairs:
+        for (c, d) in pairs:
+            for clash in (None, (a, c), (a, d), (b, c), (b, d)):
+                for layout in (0, 1, 2):
+                    # project names: ('x', r) for student 1's rank r, ('y', r) for student 2's
+                    names = [('x', r) for r in range(1, b + 1)] + [('y', r) for r in range(1, d + 1)]
+                    alias = {}
+                    if clash:
+                        alias[('y', clash[1])] = ('x', clash[0])
+                    uniq = []
+                    for n in names:
+                        n = alias.get(n, n)
+                        if n not in uniq:
+                            uniq.append(n)
+                    if layout == 1:
+                        uniq = list(reversed(uniq))
+                    elif layout == 2:
+                        uniq = uniq[1::2] + uniq[0::2]
+                    pid = {n: i + 1 for i, n in enumerate(uniq)}
+                    l1 = [[pid[('x', r)]] for r in range(1, b + 1)]
+                    l2 = [[pid[alias.get(('y', r), ('y', r))]] for r in range(1, d + 1)]
+                    if len({p[0] for p in l2}) != len(l2):
+                        continue
+                    usable = {pid[('x', a)], pid[('x', b)], pid[alias.get(('y', c), ('y', c))],
+                              pid[alias.get(('y', d), ('y', d))]}
+                    n2 = len(uniq)
+                    puq = [1 if j + 1 in usable else 0 for j in range(n2)]
+                    inst = {'na': 2, 'n1': 2, 'n2': n2, 'n3': n2, 'prefs': [l1, l2],
+                            'plq': [0] * n2, 'puq': puq, 'plec': list(range(1, n2 + 1)),
+                            'llq': [0] * n2, 'lt': list(puq), 'luq': list(puq), 'lprefs': None,
+                            'cls': 'two_student_sweep'}
+                    yield {'inst': inst, 'pc': False, 'twopl': False, 'diff': False}
 
 
 def strategy(tier):
@@ -142,6 +206,7 @@ def run_case(case):
     o = refmodel.Oracle(inst, case['twopl'], case['pc'])
     valid = [M for M in o.assignments() if o.valid(M)]
     labels = ['na=%d' % inst['na'], 'twopl' if case['twopl'] else 'one_sided',
+              'cls=' + str(inst.get('cls')) if inst.get('cls') == 'two_student_sweep' else 'drawn',
               'pc' if case['pc'] else 'no_pc',
               'maxrank>n1' if o.maxrank > o.n1 else 'maxrank<=n1']
     if o.n2 >= 10:
